@@ -114,12 +114,10 @@ func (s *Service) Start(ctx context.Context) error {
 	}
 
 	internal.VerifPoint("srv.Service.Start.checked")
-	if s.isRunning.Swap(true) {
-		return ErrServiceAlreadyStarted
-	}
+	launched := false
 
 	s.doStart.Do(func() {
-		defer s.isRunning.Store(true)
+		launched = true
 		defer s.isStarted.Store(true)
 		ec := &s.ec
 		ehSignal := make(chan struct{})
@@ -140,6 +138,7 @@ func (s *Service) Start(ctx context.Context) error {
 		}()
 
 		ctx, s.cancel = context.WithCancel(ctx)
+		s.isRunning.Store(true)
 
 		shutdownSignal := make(chan struct{})
 		if s.Shutdown != nil {
@@ -185,6 +184,13 @@ func (s *Service) Start(ctx context.Context) error {
 		}()
 		internal.VerifPoint("srv.Service.Start.launched")
 	})
+
+	if !launched {
+		if s.isFinished.Load() {
+			return ErrServiceReturned
+		}
+		return ErrServiceAlreadyStarted
+	}
 
 	return nil
 }
